@@ -71,7 +71,12 @@ func main() {
 		}
 	case "upgrade":
 		require, caseType, fn = "Upgrade", "ucase", "umismatches"
-		ta := NewTestApp(GenOpts{Time: time.Unix(1690000000, 0).UTC()})
+		opts := GenOpts{Time: time.Unix(1690000000, 0).UTC()}
+		if *profile == "handler" {
+			// a chain as it is before v1.2.0: the interchain-accounts module has no state yet (the upgrade handler initialises it)
+			opts.Drop = []string{"interchainaccounts"}
+		}
+		ta := NewTestApp(opts)
 		for i := lo; i < hi; i++ {
 			terms = append(terms, runUpgradeCase(ta, *seed, i, rep, *profile))
 			rep.Cases++
